@@ -14,7 +14,7 @@ PID = 'C16'
 EXPLANATION = (
     "R-EXH on _score_model_for_search: the CFG path conditions, folded over ScoreMode's declared values, send every one of "
     "the members to exactly one returning path whose value is the tabled aggregate (MIN->min, MAX->max, *_MEAN->"
-    "statistics.mean/fmean, *_SUM->sum/fsum, *_VARIANCE->statistics.variance, the sample variance), anything else raises "
+    "statistics.mean, *_SUM->sum (exact; fmean/fsum go through float), *_VARIANCE->statistics.variance, the sample variance), anything else raises "
     "ValueError. Direction flag: folded over the declared values it is true exactly for the members whose name starts "
     "with MIN. Selection loop (walked once per direction with the flag fixed): it visits every result in order; in each "
     "iteration the score is computed from that result's own records with the caller's mode and stored under 'score'; the "
@@ -52,8 +52,9 @@ def _score_table(cx: Cx):
     rec, mode = Sym(fn.params[0]), Sym(fn.params[1])
     table = {
         'MIN': [App('min', (rec,))], 'MAX': [App('max', (rec,))],
-        'MEAN': [App('.mean', (Sym('statistics'), rec)), App('.fmean', (Sym('statistics'), rec))],
-        'SUM': [App('sum', (rec,)), App('.fsum', (Sym('math'), rec))],
+        # exact aggregates only: fmean / fsum convert to float first and lose integer scores above 2**53
+        'MEAN': [App('.mean', (Sym('statistics'), rec))],
+        'SUM': [App('sum', (rec,))],
         'VARIANCE': [App('.variance', (Sym('statistics'), rec))],
     }
     paths = cx.walker.paths(fn, WalkOptions(unroll=0, callee_raises=False))
